@@ -369,7 +369,77 @@ def check_c10(tier):
     return run_e2("C10", tier, "C10", menus, time_budget=budget(tier, 150, 3000))
 
 
+# ---------------------------------------------------------------------------
+# E3 plumbing
+
+def run_e3(prop, tier, parts, assumptions=None, time_budget=None):
+    """parts: list of (case_fn name, label, iterator factory)"""
+    from . import smallscope
+    t0 = time.time()
+    deadline = t0 + time_budget if time_budget else None
+    cov = {"states": 0, "transitions": 0, "traces_validated_against_impl": 0, "parts": [], "samples": [],
+           "exhaustive": True, "caps": []}
+    vio = []
+    for name, label, factory in parts:
+        print(f"[{prop}] part {label}")
+        r = smallscope.run_cases(name, factory(), deadline=deadline)
+        for v in r["violations"]:
+            v["check_fn"] = name
+        vio.extend(v for v in r["violations"] if v["property"] in (prop, "C00"))
+        cov["states"] += r["cases"]
+        cov["transitions"] += r["cases"]
+        cov["traces_validated_against_impl"] += r["cases"]
+        cov["parts"].append({"name": label, "inputs_enumerated": r["cases"], "capped": r["capped"], "wall_s": round(r["wall_s"], 2)})
+        cov["samples"].extend(r["samples"][:2])
+        if r["capped"]:
+            cov["exhaustive"] = False
+            cov["caps"].append(f"{label}: {r['capped']}")
+    cov["rule"] = ("exhaustive enumeration of all inputs of the function up to the stated size bound; each input is run "
+                   "through the real function and compared with a brute-force reference; 'states' = inputs enumerated, "
+                   "'transitions' = calls of the real function")
+
+    def replay_fn(rec):
+        sigs = smallscope.replay(rec)
+        return sigs if rec["signature"] in sigs else []
+
+    return {"coverage": cov, "violations": vio, "replay_fn": replay_fn,
+            "assumptions": ["third-party behaviour (pandas, geff, zarr, scipy KDTree, skimage) is trusted"] + (assumptions or [])}
+
+
+def check_c17(tier):
+    from . import smallscope as ss
+    return run_e3("C17", tier, [("c17", "all ordered lists of distinct column names from the vocabulary", lambda: ss.c17_cases(tier))],
+                  time_budget=budget(tier, 120, 2400),
+                  assumptions=["column names from a 24-name vocabulary built from the code's own key/display-name tables (16 names at the larger length bound)"])
+
+
+def check_c18(tier):
+    from . import smallscope as ss
+    return run_e3("C18", tier, [
+        ("c18p", "all multisets of lattice points (4 frames x 4 positions)", lambda: ss.c18_points_cases(tier)),
+        ("c18s", "all label arrays 4x1x3 with globally unique labels", lambda: ss.c18_seg_cases(tier)),
+    ], time_budget=budget(tier, 120, 2400), assumptions=["integer lattice coordinates so that 'distance == maximum' is exact"])
+
+
+def check_c19(tier):
+    from . import smallscope as ss
+    return run_e3("C19", tier, [
+        ("c19u", "ensure_unique_labels: all arrays 4x1x2 over {0,1,2,5}, multiseg 2x2x1x2", lambda: ss.c19_unique_cases(tier)),
+        ("c19r", "relabel_segmentation_with_track_id: all forests x label schemes", lambda: ss.c19_relabel_cases(tier)),
+    ], time_budget=budget(tier, 120, 2400))
+
+
+def check_c13(tier):
+    from . import smallscope as ss
+    return run_e3("C13", tier, [("c13", "all label arrays 2x1x3 x all injective (time,label)->id assignments", lambda: ss.c13_cases(tier))],
+                  time_budget=budget(tier, 150, 3000))
+
+
 CHECKS = {
+    "C13": check_c13,
+    "C17": check_c17,
+    "C18": check_c18,
+    "C19": check_c19,
     "C02": check_c02,
     "C10": check_c10,
     "C07": check_c07,
